@@ -370,9 +370,12 @@ impl World {
             self.credit(&me, d, *a);
         }
         let env = self.env();
+        // sdk.Coins are sorted by denom when they reach a contract
+        let mut sorted: Vec<&(String, u128)> = funds.iter().collect();
+        sorted.sort_by(|a, b| a.0.cmp(&b.0));
         let info = MessageInfo {
             sender: Addr::unchecked(sender),
-            funds: funds.iter().map(|(d, a)| Coin::new(*a, d.clone())).collect(),
+            funds: sorted.into_iter().map(|(d, a)| Coin::new(*a, d.clone())).collect(),
         };
         let api = SimApi { prefix: PROTO_PREFIX };
         let q = NoQuerier;
